@@ -46,6 +46,15 @@ def is_usage(e, what):
     return e.kind == "call" and e.name.endswith(what) and e.args and tform(e.args[0]) == USAGE
 
 
+def check_measure(ctx, rep, where, amount, b):
+    """what is subtracted for a removed record is the same measure that set added for it: Record::len()"""
+    from rules.c14 import record_measure, size_measure
+
+    ref = record_measure(ctx)
+    m = size_measure(amount)
+    rep.check(ref is not None and m is not None and m[:2] == ref, "%s:measure" % where, "subtracts Record::len() of the removed record", "RandomPolicy::%s subtracts %s for a removed record, which is not its Record::len() (value length x%s + %s) that the store path added: every add/remove pair leaves a residue, the counter drifts (or wraps below zero) and live items are evicted without memory pressure" % (where, short(amount, 80), ref[0] if ref else "?", ref[1] if ref else "?"), b.loc())
+
+
 def r1(ctx):
     rep = Report("C15.R1", "accounting balance per RandomPolicy method: removals subtracted, additions only for successful stores and net of the replaced record, reset not stale", floor=10)
     f = ctx.facts
@@ -88,6 +97,8 @@ def r1(ctx):
                     if removed:
                         ok = len(mine) == 1 and any((isinstance(x, tuple) and x[0] == "call" and x[1].endswith("::len")) or (isinstance(x, tuple) and x[0] == "len") for x in atoms(mine[0].args[1]))
                         rep.check(ok, "%s:%s:removed-subtracted" % (nm, m), "removed record's size subtracted once", "RandomPolicy::%s removes a record through the inner %s but subtracts %s" % (nm, m, [short(s.args[1], 60) for s in mine] or "nothing"), b.loc())
+                        if ok:
+                            check_measure(ctx, rep, "%s:%s" % (nm, m), mine[0].args[1], b)
                     elif not_removed:
                         rep.check(not mine and not [s for j, s in subs if j > i], "%s:%s:nothing-removed-nothing-subtracted" % (nm, m), "no subtraction when nothing was removed", "RandomPolicy::%s subtracts although the inner %s removed nothing" % (nm, m), b.loc())
                     else:
@@ -103,6 +114,9 @@ def r1(ctx):
                     if removed_some:
                         ok = len(after) >= 1 and all(any(isinstance(x, tuple) and x[0] == "cbarg" for x in atoms(a_.args[1])) for a_ in after)
                         rep.check(ok, "%s:remove_if:removed-subtracted" % nm, "each evicted record's size subtracted", "the sweep does not subtract the size of each evicted record", b.loc())
+                        if ok:
+                            for a_ in after:
+                                check_measure(ctx, rep, "%s:remove_if" % nm, a_.args[1], b)
                     elif removed_none:
                         rep.check(not after, "%s:remove_if:none-removed" % nm, "nothing subtracted for an empty slot", "the sweep subtracts for a slot that removed nothing", b.loc())
                 elif m == "flush":
